@@ -222,8 +222,16 @@ func c13Mod1Sweep(c *Ctx) {
 	}
 	for _, typ := range []mod1.Type{mod1.SinContinuous, mod1.CosDiscrete, mod1.CosContinuous} {
 		for da := 0; da <= 3; da++ {
-			for _, invDeg := range []int{0, 7} {
-				lit := mod1.ParametersLiteral{LevelQ: 12, Mod1Type: typ, LogMessageRatio: 8, K: 4, Mod1Degree: 63,
+			for ii, invDeg := range []int{0, 7, 0} {
+				// the third pass: an EVEN degree of the interpolant (an odd number of Chebyshev nodes)
+				deg := 63
+				if ii == 2 {
+					deg = 62
+					if !c.Thorough() && da%2 == 1 {
+						continue
+					}
+				}
+				lit := mod1.ParametersLiteral{LevelQ: 12, Mod1Type: typ, LogMessageRatio: 8, K: 4, Mod1Degree: deg,
 					DoubleAngle: da, Mod1InvDegree: invDeg, LogScale: 60}
 				evm, err := mod1.NewParametersFromLiteral(params, lit)
 				if err != nil {
@@ -233,7 +241,7 @@ func c13Mod1Sweep(c *Ctx) {
 					if !c.Thorough() && (int(typ)+da+si+invDeg)%2 == 1 && scaling != 1 {
 						continue
 					}
-					tag := fmt.Sprintf("type=%d da=%d inv=%d scaling=%g", int(typ), da, invDeg, scaling)
+					tag := fmt.Sprintf("type=%d da=%d inv=%d scaling=%g deg=%d", int(typ), da, invDeg, scaling, deg)
 					K := evm.K - 1
 					Q := evm.QDiff * evm.MessageRatio()
 					values := make([]float64, params.MaxSlots())
